@@ -109,6 +109,11 @@ def behave(plan, n):
     if out == "obj":
         return {"__node__": n}
     if out == "err":
+        if (plan.get("variant") or {}).get("err") == "shared":
+            # gamma: every failing resolver of the request raises the SAME exception object (e.g. a module level constant)
+            if "_shared_err" not in plan:
+                plan["_shared_err"] = ResolverError("shared resolver error")
+            raise plan["_shared_err"]
         raise ResolverError("resolver error at %d" % n, extensions={"node": n})
     raise Crash("crash at %d" % n)
 
@@ -117,6 +122,7 @@ def set_resolvers(schema, plan, kids, make):
     """make(n) -> resolver callable for node n.  Returns the root value: with variant style=method the top-level fields
     have NO explicit resolver and are served by methods of the root object through the default resolver."""
     style = (plan.get("variant") or {}).get("style", "resolver")
+    plan.pop("_shared_err", None)     # one shared error object per run
     root = None
     if style == "method":
         class RootObj:
